@@ -91,6 +91,14 @@ Section Move.
   Proof.
     unfold major_cov. rewrite filtered_q_tr. apply filtered_b_tr. intros m. apply major_filter_tr.
   Qed.
+
+  (* the evidence filter of the minor stage (minor.py default_filter_fn): the same, for any "allowed" predicate that is transported *)
+  Variables (allowed allowed' : mut -> bool).
+  Hypothesis ALW : forall m, allowed' (mtr m) = allowed m.
+  Lemma minor_filter_tr p c m : minor_filter p pcn' allowed' (covmap c) (mtr m) = minor_filter p pcn allowed c m.
+  Proof. unfold minor_filter. rewrite ALW, major_filter_tr. reflexivity. Qed.
+  Theorem minor_cov_tr p c : minor_cov p pcn' allowed' (covmap c) = covmap (minor_cov p pcn allowed c).
+  Proof. unfold minor_cov. rewrite filtered_q_tr. apply filtered_b_tr. intros m. apply minor_filter_tr. Qed.
 End Move.
 
 (* ================================================================== the instance *)
